@@ -25,16 +25,16 @@ TRUSTED_BASE = [
 # ---------------------------------------------------------------------------------------------
 # property table: theorem modules, generated tables, correspondence runs (level, group)
 PROPS = {
-    "C01": dict(modules=["Emu8086.Props.C01", "Emu8086.Props.C01Exec"], runs=[("l1", "arith"), ("l2", "arith"), ("l2i", "ishapes"), ("l2", "mixseq")], gen=["Arch"],
+    "C01": dict(modules=["Emu8086.Props.C01", "Emu8086.Props.C01Exec"], runs=[("l1", "arith"), ("l2", "arith"), ("l2i", "ishapes"), ("l2", "mixseq"), ("l3", "roles")], gen=["Arch"],
                 rule="L1: every byte operand pair x 4+ flag words for ADD/ADC/SUB/SBB/CMP, every byte value x flag words for INC/DEC/NEG, "
                      "word operands on the boundary lattice^2 + seeded random pairs; non-trivial = result or flag word differs from the input; "
                      "distinct = distinct request text (hash-sharded, de-duplicated in the driver)"
                      " l2i ishapes: requests generated from the CURRENT interpreter grammar (every alternative of every instruction production x every table entry x every memory-operand alternative); l2 mixseq: mixed straight-line sequences over all instruction classes."),
-    "C02": dict(modules=["Emu8086.Props.C02"], runs=[("l1", "bits"), ("l2", "logic+shift"), ("l2i", "ishapes"), ("l2", "mixseq")], gen=["Arch"],
+    "C02": dict(modules=["Emu8086.Props.C02"], runs=[("l1", "bits"), ("l2", "logic+shift"), ("l2i", "ishapes"), ("l2", "mixseq"), ("l3", "roles")], gen=["Arch"],
                 rule="L1: all 256 byte values x all 256 counts x 2 flag words for the 7 shift/rotate functions; word values (lattice+random) x all 256 counts; "
                      "logic ops on all byte pairs and lattice/random word pairs; non-trivial = result or flags changed"
                      " l2i ishapes: requests generated from the CURRENT interpreter grammar (every alternative of every instruction production x every table entry x every memory-operand alternative); l2 mixseq: mixed straight-line sequences over all instruction classes."),
-    "C03": dict(modules=["Emu8086.Props.C03"], runs=[("l1", "muldiv"), ("l2", "muldiv"), ("l2", "divx"), ("l2i", "ishapes"), ("l2", "mixseq")], gen=["Arch"],
+    "C03": dict(modules=["Emu8086.Props.C03"], runs=[("l1", "muldiv"), ("l2", "muldiv"), ("l2", "divx"), ("l2i", "ishapes"), ("l2", "mixseq"), ("l3", "roles")], gen=["Arch"],
                 rule="L1: MUL/IMUL/DIV/IDIV byte forms on (lattice+random AX) x all 256 operands, word forms on lattice triples + random 48-bit triples "
                      "biased to the quotient-overflow boundary; adjusts on AX x {AF,CF}; non-trivial = state changed or divide error"
                      " l2i ishapes: requests generated from the CURRENT interpreter grammar (every alternative of every instruction production x every table entry x every memory-operand alternative); l2 mixseq: mixed straight-line sequences over all instruction classes."),
@@ -45,7 +45,7 @@ PROPS = {
                      "full-memory diff shows every write; non-trivial = state or outcome differs from a plain NEXT; distinct = distinct request text"
                      " L3 operands: every memory-operand shape x override x base x index x 20 instruction frames written from syntax.md, the emitted line must mean the source instruction (request opnd). L4 dataref: label reads against an image computed by the generator."
                      " l2i ishapes: requests generated from the CURRENT interpreter grammar (every alternative x every table entry x every memory-operand alternative)."),
-    "C05": dict(modules=["Emu8086.Props.C05"], runs=[("l2", "mov+xfer+stack"), ("l2", "stackseq"), ("l2i", "ishapes"), ("l2", "mixseq"), ("l2", "alias")], gen=["Arch", "ILiterals"],
+    "C05": dict(modules=["Emu8086.Props.C05"], runs=[("l2", "mov+xfer+stack"), ("l2", "stackseq"), ("l2i", "ishapes"), ("l2", "mixseq"), ("l2", "alias"), ("l3", "roles")], gen=["Arch", "ILiterals"],
                 rule="L2: MOV/XCHG/PUSH/POP/PUSHF/POPF/LAHF/SAHF/XLAT over all operand kinds x adversarial SS:SP (0, 1, FFFFh, top of memory); "
                      "stackseq = straight-line random interleavings of pushes/pops/moves (length up to 64 quick / 2000 thorough) executed line by line "
                      "against the model and the reference; non-trivial = more than one instruction or a state change"
@@ -55,7 +55,7 @@ PROPS = {
                      "(x CX lattice + random for JCXZ/LOOP*); jump: random jumps/calls/rets/ints; non-trivial = outcome other than plain NEXT or CX changed"
                      " L3 jumpspell: every Intel jump/loop mnemonic in both cases through the real assembler, emitted jump must belong to its Intel class (request jsp)."
                      " l2i ishapes: requests generated from the CURRENT interpreter grammar (every alternative x every table entry x every memory-operand alternative)."),
-    "C07": dict(modules=["Emu8086.Props.C07"], runs=[("l2", "string"), ("l2", "rep"), ("l4", "strings"), ("l2i", "ishapes"), ("l2", "mixseq"), ("l2", "alias")], gen=["Arch", "ILiterals"],
+    "C07": dict(modules=["Emu8086.Props.C07"], runs=[("l2", "string"), ("l2", "rep"), ("l4", "strings"), ("l2i", "ishapes"), ("l2", "mixseq"), ("l2", "alias"), ("l3", "roles")], gen=["Arch", "ILiterals"],
                 rule="L2 string: single steps of every string instruction x width x DF x prefix on adversarial DS/ES/SI/DI; rep: the REPEAT protocol "
                      "driven to completion (the driver's loop) for every mnemonic x width x DF x prefix x CX in 0..64 (+255, 300; thorough also 4095, 32768, 65535), "
                      "with aliasing DS:SI/ES:DI and runs of equal bytes; non-trivial = CX != 0 or a state change"
@@ -119,7 +119,7 @@ PROPS = {
                      "stdin families (empty, newline only, shorter, equal, longer than capacity, unterminated, CRLF, two lines): stdout, registers and memory after the "
                      "service vs the model"
                      " ALL 256 AH values for both interrupts in every run; input lines starting with multi-byte characters; stdout compared strictly."),
-    "C19": dict(modules=["Emu8086.Props.C19"], runs=[("l4", "diag", {"VERIF_CLI_REPEAT": "3"}), ("l4", "run", {"VERIF_CLI_REPEAT": "2"}), ("l3", "reuse"), ("l2", "arith+logic+shift+muldiv+mov+xfer+stack+jump+string+ctl+malformed")],
+    "C19": dict(modules=["Emu8086.Props.C19"], runs=[("l4", "diag", {"VERIF_CLI_REPEAT": "3"}), ("l4", "run", {"VERIF_CLI_REPEAT": "2"}), ("l3", "reuse"), ("l2", "arith+logic+shift+muldiv+mov+xfer+stack+jump+string+ctl+malformed"), ("l4", "fuzz", {"VERIF_CLI_REPEAT": "2"}), ("l4", "macros", {"VERIF_CLI_REPEAT": "2"})],
                 gen=["Arch", "ILiterals", "PPGrammar", "Hygiene"],
                 rule="every L4 case is run 2-3 times in separate processes: outputs, traces and final states must be byte-identical (and equal to the deterministic "
                      "model), in particular programs with several simultaneous errors; L2: ONE Interpreter object processes all requests (valid and malformed lines "
